@@ -1,6 +1,7 @@
 import ShootVerif.Proofs.RestSend
 import ShootVerif.Proofs.RestParse
 import ShootVerif.Proofs.RestKV
+import ShootVerif.Gen.Facts
 /-!
 C06 — rest: each call sends exactly the request its directive describes.
 
@@ -97,6 +98,31 @@ theorem C06_headers (hs : List (String × String)) (v : Verb) :
   · apply keysOf_setAll_nodup
     cases v <;> decide
 
+/-! ## The tables of cook.go, REGENERATED from the source on every run (harness/cmd/facts/restfacts.go)
+
+`Facts.restDefaultHeaders` is the composite literal assigned to `g.data.DefaultHeaders`,
+`Facts.restBodyVerbs` the slice assigned to `g.data.BodyHTTPMethods`. The model's `defaultHeaders` and
+`Verb.hasBody` must BE those tables: an edit of either table in the source stops these two theorems
+from checking. -/
+
+theorem C06_facts_defaultHeaders :
+    (∀ v : Verb, Facts.restDefaultHeaders.lookup v.upper = some (defaultHeaders v)) ∧
+    Facts.restDefaultHeaders.length = 5 := by
+  refine ⟨fun v => by cases v <;> decide, by decide⟩
+
+theorem C06_facts_bodyVerbs : ∀ v : Verb, v.hasBody = Facts.restBodyVerbs.contains v.upper := by
+  intro v; cases v <;> decide
+
+/-- C06_headers over the regenerated table: the value under a key is the directive's last value for
+    it, else the entry of the source's DefaultHeaders literal for the method's verb -/
+theorem C06_headers_facts (hs : List (String × String)) (v : Verb) (k : String) :
+    getKV (headersFor hs v) k =
+      match hs.reverse.find? (fun kv => kv.1 = k) with
+      | some kv => some kv.2
+      | none => getKV ((Facts.restDefaultHeaders.lookup v.upper).getD []) k := by
+  rw [(C06_headers hs v).1 k, specHeader, C06_facts_defaultHeaders.1 v]
+  rfl
+
 /-!
 ## The request of one call
 
@@ -166,6 +192,17 @@ theorem C06_body (hs : List (String × String)) (m : MethodSpec)
   refine ⟨r, h1, ?_, ?_⟩
   · rw [h5]; simp [specBody, hv]
   · rw [h4]; simp [specQuery, hv]
+
+/-- C06_body over the regenerated `BodyHTTPMethods`: exactly for the verbs listed there the struct
+    argument is marshalled as the body and no query is written; for every other verb there is no body -/
+theorem C06_body_facts (hs : List (String × String)) (m : MethodSpec)
+    (c : Cooked) (d : PathDir) (subs : List PathSub) (args : Args)
+    (ok : MethodOK m) (aok : ArgsOK m args) (h : CookedFor m c d subs) :
+    ∃ r, send (planOf hs m.name c d subs) args = .sent r ∧
+      r.body = (if Facts.restBodyVerbs.contains m.verb.upper then (m.params.find? isStructParam).map (·.name) else none) := by
+  obtain ⟨r, h1, _, _, _, h5, _, _⟩ := send_eq_spec hs m c d subs args ok aok h
+  refine ⟨r, h1, ?_⟩
+  rw [h5, specBody, C06_facts_bodyVerbs m.verb]
 
 /-- the context attached to the request is the caller's (the method's context argument), and the
     background context when the method has no context parameter -/
